@@ -329,11 +329,14 @@ def _is_optional_arg(t, i, r: Optional[Row] = None, lm: Optional[ListenerModel] 
     if x != T(i) or y != NONE:
         return False
     if c[0] == "cmp" and c[2][0] == "len" and is_const(c[3]):
-        base_ok = c[2][1] in (A, PARAMS)
-        return base_ok and (c[1], c[3][1]) in ((">", i), (">=", i + 1), ("==", i + 1))
+        if c[2][1] in (A, PARAMS):
+            return (c[1], c[3][1]) in ((">", i), (">=", i + 1), ("==", i + 1))
     # truthiness of args[i:]
     rest = (("slice", A, const(i), NONE), ("slice", PARAMS, const(i), NONE), ("map", ("text", IT), ("slice", A, const(i), NONE)))
     if c in rest or (c[0] in ("truthy", "nonempty") and c[1] in rest):
+        return True
+    # len(args[i:]) > 0
+    if c[0] == "cmp" and c[2][0] == "len" and c[2][1] in rest and is_const(c[3]) and (c[1], c[3][1]) in ((">", 0), (">=", 1), ("!=", 0)):
         return True
     return False
 
